@@ -23,10 +23,32 @@ ASSUMPTIONS = [
     "grid; the error histogram is reported in coverage.classes), passivity |H| <= 1+5e-3",
     "the landa_D+kL+L route (no vdneff) designs through dneff (self-coupling != 0): a different grating, not part of the equivalence",
 ]
-APOS = ["uniform", "rcos", "gaussian", "parabolic", "callable", "callable", "callable-scalar"]
+APOS = ["uniform", "rcos", "gaussian", "parabolic", "callable", "callable", "callable-scalar", "callable-named"]
+
+
+# user profile functions that happen to carry the names of the built-in profiles (their shapes are different ones)
+def gaussian(z):
+    return 0.4 + 0.6 * np.exp(-0.5 * (z / 0.1) ** 2)
+
+
+def parabolic(z):
+    return 1 - 0.5 * (2 * z) ** 4
+
+
+def rcos(z):
+    return 0.25 + 0.75 * np.cos(np.pi * z) ** 2
+
+
+def uniform(z):
+    return 0.6 + 0.8 * np.abs(z)
+
+
+NAMED = [gaussian, parabolic, rcos, uniform]
 
 
 def profile(name, a=0.0, b=0.0):
+    if name == "callable-named":
+        return NAMED[int(abs(a) * 1000) % 4]
     if name == "uniform":
         return lambda z: 1.0 + 0 * z
     if name == "rcos":
@@ -131,7 +153,7 @@ def e_case(c):
             check(float(np.max(np.abs(A[ok] ** 2 - refl[ok]))) <= 1e-2, "uniform-spectrum!=closed-form", f"kL={kL:.3f} vd={vd:.2e} fs={fs:.3e}: max err {np.max(np.abs(A[ok] ** 2 - refl[ok])):.2e}")
     # a DIFFERENT profile function with the very same design numbers, right after the first one was dropped (it may well be allocated
     # at the address the first one occupied): the response is that of the profile passed now
-    if F == 0 and apo.startswith("callable"):
+    if F == 0 and apo.startswith("callable") and apo != "callable-named":
         old_id = id(apod)
         base.pop("apodization")
         del apod, p
@@ -179,6 +201,55 @@ def e_case(c):
     return {"nontrivial": bool(nt), "classes": [apo, "chirped" if F else "unchirped", f"pol{c['npol']}", route, f"N{N}", "kL>=1" if kL >= 1 else "kL<1"] + errclass}
 
 
+
+# --------------------------------------------------------------------------------------------------
+# band edge exactly on a simulated frequency (detuning == coupling coefficient to the last bit): a removable singularity of the closed forms
+
+@st.composite
+def s_edge(draw):
+    return {"N": draw(st.sampled_from([256, 512, 1024])), "fs": draw(st.sampled_from([50e9, 100e9, 160e9, 200e9])), "L": draw(st.floats(2e-3, 8e-3)),
+            "bin": draw(st.integers(12, 120)), "side": draw(st.sampled_from([1, -1])), "npol": draw(st.sampled_from([1, 2])), "seed": draw(st.integers(0, 2 ** 31 - 1))}
+
+
+def e_edge(c):
+    reset()
+    N, fs, L = c["N"], c["fs"], c["L"]
+    gv(sps=16, fs=fs)
+    f0 = gv.f0
+    rs = np.random.RandomState(c["seed"])
+    shape = (N,) if c["npol"] == 1 else (2, N)
+    x = optical_signal(rs.standard_normal(shape) + 1j * rs.standard_normal(shape), n_pol=c["npol"])
+    lam = 2 * np.pi * CL / (2 * np.pi * fftshift(fftfreq(N)) * fs + 2 * np.pi * f0)      # simulated wavelengths, as documented for the response grid
+    lD = CL / f0
+    hit, i, v = False, None, None
+    for b in range(c["bin"], min(c["bin"] + 90, N // 2 - 2)):        # scan bins until the coincidence is exact in floating point
+        i_ = N // 2 + c["side"] * b
+        delta_i = 2 * np.pi * 1.45 * (1 / lam[i_] - 1 / lD) * L
+        v_ = abs(2 * 1.45 * (1 - lam[i_] / lD))
+        for _ in range(64):
+            k_i = np.pi * v_ / lam[i_] * L
+            if k_i == abs(delta_i):
+                hit = True
+                break
+            v_ = float(np.nextafter(v_, np.inf if k_i < abs(delta_i) else -np.inf))
+        if i is None or hit:
+            i, v = i_, v_
+        if hit:
+            break
+    kL = np.pi * v * L / lD
+    if not (1e-5 <= v <= 1e-3 and 0.1 <= kL <= 8):
+        return {"nontrivial": False, "classes": ["design-outside-domain"]}
+    y, H = call_fbg(x, fc=f0, vdneff=v, L=L)
+    check(isinstance(H, np.ndarray) and H.shape == (N,) and bool(np.all(np.isfinite(H))), "H-shape-or-non-finite", f"band edge on bin {i}: vdneff={v!r} kL={kL:.4f}")
+    check(bool(np.all(np.isfinite(y.signal))), "output-non-finite", f"band edge on bin {i}")
+    A = np.abs(H)
+    check(float(A.max()) <= 1 + 5e-3, "fbg-not-passive", f"max|H| = {A.max():.6f}")
+    k_i = np.pi * v / lam[i] * L
+    want = k_i ** 2 / (1 + k_i ** 2)             # limit of the uniform-grating reflectivity at the band edge
+    check(abs(A[i] ** 2 - want) <= 1e-2, "uniform-spectrum!=closed-form", f"band-edge bin {i}: |H|^2 = {A[i] ** 2:.6f} vs {want:.6f}")
+    return {"nontrivial": hit, "classes": ["exact-coincidence" if hit else "within-ulps", f"N{N}", "upper-edge" if c["side"] > 0 else "lower-edge"]}
+
+
 s_err = st.fixed_dictionaries({"what": st.sampled_from(["fc-alone", "fc+vd", "fc+dneff", "landa-alone", "landa+vd", "landa+kL", "nothing", "only-kL", "type"]),
                                "N": st.sampled_from([256, 512])})
 
@@ -200,5 +271,7 @@ def e_err(c):
 
 PARTS = [
     Part("designs", e_case, s_case(), quick=160, thorough=3600, shards=16, quick_shards=4, shrink=False, rule="see RULE"),
+    Part("band_edge", e_edge, s_edge(), quick=5, thorough=60, shards=16, quick_shards=4, shrink=False,
+         rule="uniform unchirped gratings whose band edge (detuning == coupling coefficient, bit for bit) falls on a simulated frequency: finite, passive, limit value"),
     Part("errors", e_err, s_err, quick=30, thorough=600, shards=1, rule="incomplete specifications / non-optical input"),
 ]
